@@ -17,6 +17,7 @@ import NutsModel.C19.DidWeb
 import NutsModel.C19.Ambassador
 import NutsModel.C19.HttpCache
 import NutsModel.C19.Cred
+import NutsModel.C19.Jwx
 namespace Nuts.C19.Sites
 open Nuts
 
@@ -636,6 +637,10 @@ def credCfg : Cred.Cfg :=
   { subjectErrChecked := has "vcr/credential/util.go:ResolveSubjectDID" "range:credentials"
       && !has "vcr/credential/util.go:ResolveSubjectDID" "discard:credential.SubjectDID()"
     proofCountExact := has "vcr/credential/resolver.go:ParseLDProof" "lencheck:len(proofs) != 1" }
+
+def jwxCfg : Jwx.Cfg :=
+  { kidAlgSigGuard := has "crypto/jwx.go:JWTKidAlg" "lencheck:len(j.Signatures()) != 1"
+    jwsSigGuard := has "crypto/jwx.go:ParseJWS" "lencheck:len(signatures) != 1" }
 
 def ibltCfg : Iblt.Cfg :=
   { k := Facts.C19.ibltK
